@@ -41,7 +41,7 @@ def check(case):
     m_nr = attr.evolve(mix, nrtl_params=None); m_uq = attr.evolve(mix, uniquac_params=None)
     m_uc = attr.evolve(mix, second_component=attr.evolve(mix.second_component, uniquac_constants=None))
     for label, m, model in (("NRTL without parameters", m_nr, 'NRTL'), ("UNIQUAC without parameters", m_uq, 'UNIQUAC'), ("UNIQUAC without component constants", m_uc, 'UNIQUAC')):
-        for comp in (Composition(0.3, 'molar'), x):
+        for comp in (Composition(0.3, 'molar'), x, Composition(0.0, 'molar'), Composition(1.0, 'molar'), Composition(1.0, 'weight'), Composition(0.0, 'weight')):
             expect_raise(fails, label + " (activity coefficients)", lambda: calculate_activity_coefficients(333.15, m, comp, model))
             expect_raise(fails, label + " (partial pressures)", lambda: get_partial_pressures(333.15, m, comp, model))
     one = Membrane(name='m', ideal_experiments=IdealExperiments([IdealExperiment(name='a', temperature=323.15, component=mix.first_component, permeance=P1)]))
